@@ -9,7 +9,9 @@
 //! Line protocol (model side: lean/JrpcVerif/Driver/ConnFamily.lean):
 //!   case <n> conn max=<m> http=<0|1> ws=<0|1> obs=<0|1> path=<server|tower|towerset|towermw|towerclone>
 //!     (server_env::Assembly: where the limit is configured and which builder setters run after it)
-//!   cg harrive <c> <new|reuse> | cg hdone <c> | cg habort <c> <fin|rst>
+//!   cg harrive <c> <new|reuse|close|batch> | cg hdone <c> | cg habort <c> <fin|rst> | cg idle <c>
+//!     (new/reuse: fresh / kept-alive TCP connection; close: `Connection: close`; batch: one request
+//!      with two calls; idle: a client that connects and sends nothing)
 //!   cg wstart <c> <0|1> | cg wdone <c> | cg wfail <c> <drop|reset>
 //!   cg wclose <c> <close|closecall|halfcall|reset|resetcall|proto|ping|pingcall|stop> | cg end
 //!     (…call = one gated call is executing on the session while it ends: the slot must be freed
@@ -40,6 +42,8 @@ struct Run {
 	live: BTreeMap<u64, (Kind, Conn)>,
 	idle: Vec<Conn>,
 	stop_issued: bool,
+	/// requests sent with `Connection: close`
+	closing: std::collections::BTreeSet<u64>,
 }
 
 type Res = (String, Result<(), String>);
@@ -136,7 +140,10 @@ impl Run {
 			}
 			Got::Resp(Some(rp)) => {
 				let a = self.env.avail();
-				self.idle.push(conn);
+				if !self.closing.remove(&tag) {
+					// (after `Connection: close` the server ends the connection: not reusable)
+					self.idle.push(conn);
+				}
 				let nothing_ran = {
 					let mut ran = false;
 					self.env.drain_ev(|e| match e {
@@ -151,7 +158,7 @@ impl Run {
 				let label = match (rp.status, kind) {
 					(429, _) => "refused",
 					(403, _) => "denied",
-					(200, Kind::Upgrading) if String::from_utf8_lossy(&rp.body).contains("Could not upgrade") => "rejected",
+					(200, Kind::Upgrading) if String::from_utf8_lossy(&rp.body).to_lowercase().contains("upgrade") => "rejected",
 					_ => "unexpected",
 				};
 				let orc = match label {
@@ -214,7 +221,16 @@ impl Run {
 					return ("noop".into(), Ok(()));
 				}
 				let reuse = w[3] == "reuse";
-				let body = post_request(&call_json(tag, "hold", tag));
+				let json = if w[3] == "batch" {
+					// one request, two calls: still ONE slot
+					format!("[{},{}]", call_json(tag, "hold", tag), call_json(tag + 500_000, "avail", 0))
+				} else {
+					call_json(tag, "hold", tag)
+				};
+				let body = if w[3] == "close" { post_request_close(&json) } else { post_request(&json) };
+				if w[3] == "close" {
+					self.closing.insert(tag);
+				}
 				let mut conn = match self.open_conn(reuse).await {
 					Some(c) => c,
 					None => return ("connect-failed".into(), Err("cannot connect to the server".into())),
@@ -230,6 +246,19 @@ impl Run {
 				}
 				self.arrival(tag, Kind::Http, conn).await
 			}
+			("idle", 3) => {
+				// a client that connects and sends nothing: it is not being served, it holds no slot
+				match Conn::open(self.env.addr).await {
+					Ok(c) => self.idle.push(c),
+					Err(_) => return ("connect-failed".into(), Err("cannot connect to the server".into())),
+				}
+				// give the server the chance to (wrongly) account for it
+				for _ in 0..20 {
+					tokio::task::yield_now().await;
+				}
+				let a = self.env.avail();
+				(format!("idle {}", a_repr(a)), self.avail_ok(a, "with an idle TCP connection"))
+			}
 			("hdone", 3) => {
 				let Some((Kind::Http, _)) = self.live.get(&tag) else { return ("noop".into(), Ok(())) };
 				let (_, mut conn) = self.live.remove(&tag).unwrap();
@@ -237,13 +266,21 @@ impl Run {
 				let rp = tokio::time::timeout(WAIT, conn.read_response()).await.ok().and_then(|r| r.ok()).flatten();
 				let fin = self.env.wait_ev(|e| matches!(e, Ev::Finished { tag: t } if *t == tag).then_some(()), WAIT).await;
 				let ok = match &rp {
-					Some(rp) if rp.status == 200 && result_u64(&rp.body) == Some(tag) => Ok(()),
+					Some(rp) if rp.status == 200 && result_of(&rp.body, tag) == Some(tag) => Ok(()),
 					other => Err(format!("request {tag}: handler released but the answer was {other:?}")),
 				}
 				.and(check(fin.is_some(), || format!("request {tag}: handler did not finish")));
 				// the permit is dropped before the response is yielded (server.rs:1141): no wait needed,
 				// but reading is still done with the bounded wait so that only the VALUE is judged
-				self.idle.push(conn);
+				if self.closing.remove(&tag) {
+					// `Connection: close`: the server ends the connection after the answer
+					let eof = tokio::time::timeout(WAIT, conn.read_response()).await;
+					if !matches!(eof, Ok(Ok(None)) | Ok(Err(_))) {
+						return ("notclosed".into(), Err(format!("request {tag}: `Connection: close` but the server kept the connection open")));
+					}
+				} else {
+					self.idle.push(conn);
+				}
 				self.released("after the response", ok).await
 			}
 			("habort", 4) => {
@@ -266,7 +303,7 @@ impl Run {
 					Ok(c) => c,
 					Err(_) => return ("connect-failed".into(), Err("cannot connect to the server".into())),
 				};
-				let _ = conn.send(&upgrade_request(Some(tag), valid)).await;
+				let _ = conn.send(&if valid { upgrade_request(Some(tag), true) } else { bad_upgrade_request(Some(tag), tag) }).await;
 				self.arrival(tag, Kind::Upgrading, conn).await
 			}
 			("wdone", 3) => {
@@ -411,7 +448,7 @@ async fn run_case(lines: &[String], out: &mut Out) -> bool {
 	};
 	let ping = lines.iter().any(|l| l.starts_with("cg wclose") && (l.ends_with(" ping") || l.ends_with(" pingcall"))).then_some((25u64, 50u64));
 	let env = start_env(&EnvCfg { assembly: h.assembly, max: h.max, http: h.http, ws: h.ws, ping, buffer: 16 }).await;
-	let mut run = Run { env, max: h.max as usize, live: BTreeMap::new(), idle: vec![], stop_issued: false };
+	let mut run = Run { env, max: h.max as usize, live: BTreeMap::new(), idle: vec![], stop_issued: false, closing: Default::default() };
 	run.bootstrap(h.http).await;
 	out.line(lines[0].clone(), "case".into(), Ok(()), false);
 	out.count(&format!("case.max={}", h.max));
@@ -495,8 +532,11 @@ impl GenCase {
 		self.next += 1;
 		let full = self.live.len() as u32 >= self.max;
 		let r = rng.below(10);
+		if rng.chance(1, 12) {
+			self.lines.push(format!("cg idle {}", 900_000 + c));
+		}
 		if r < 5 {
-			self.lines.push(format!("cg harrive {c} {}", if rng.chance(1, 3) { "reuse" } else { "new" }));
+			self.lines.push(format!("cg harrive {c} {}", rng.pick(&["new", "new", "new", "reuse", "reuse", "close", "batch"])));
 			if !full && self.http {
 				self.live.push((c, G::Http));
 			}
@@ -567,13 +607,13 @@ impl GenCase {
 }
 
 fn pick_cfg(rng: &mut Rng) -> (u32, bool, bool, Assembly) {
-	let max = *rng.pick(&[0u32, 1, 1, 1, 2, 2, 2, 3, 3]);
+	let max = *rng.pick(&[0u32, 1, 1, 1, 2, 2, 2, 3, 3, 1, 2, 3, u32::MAX]);
 	let (http, ws) = match rng.below(10) {
 		0 => (true, false),
 		1 => (false, true),
 		_ => (true, true),
 	};
-	let asm = *rng.pick(&[Assembly::Server, Assembly::Server, Assembly::Tower, Assembly::TowerSet, Assembly::TowerMw, Assembly::TowerClone]);
+	let asm = *rng.pick(&[Assembly::Server, Assembly::Server, Assembly::Tower, Assembly::TowerSet, Assembly::TowerMw, Assembly::TowerClone, Assembly::LowLevel, Assembly::LowServe]);
 	(max, http, ws, asm)
 }
 
@@ -602,7 +642,8 @@ fn gen_random_case(rng: &mut Rng, n: u64) -> Vec<String> {
 fn gen_fill_case(rng: &mut Rng, n: u64) -> Vec<String> {
 	let (max, _, _, asm) = pick_cfg(rng);
 	let mut g = GenCase { lines: vec![header(n, max, true, true, asm)], live: vec![], next: 1, max, http: true, ws: true };
-	while (g.live.len() as u32) < max {
+	// (with the limit u32::MAX "full" cannot be reached: a handful of sessions, none refused)
+	while (g.live.len() as u32) < max.min(4) {
 		g.arrive(rng);
 		if let Some(&(c, G::Upg)) = g.live.last() {
 			if rng.chance(1, 2) {
@@ -613,6 +654,17 @@ fn gen_fill_case(rng: &mut Rng, n: u64) -> Vec<String> {
 	}
 	for _ in 0..3 {
 		g.arrive(rng);
+	}
+	// refused -> one session ends -> the retry (on the very connection that got the 429) is admitted
+	if max > 0 && !g.live.is_empty() {
+		let (c, k) = g.live.remove(0);
+		g.lines.push(GenCase::exit_line(rng, c, k));
+		let t = g.next;
+		g.next += 1;
+		g.lines.push(format!("cg harrive {t} reuse"));
+		g.live.push((t, G::Http));
+		g.lines.push(format!("cg harrive {} new", g.next));
+		g.next += 1;
 	}
 	g.drain_and_end(rng);
 	g.lines
@@ -627,7 +679,7 @@ const EXIT_PATHS: [&str; 15] = [
 /// sessions held open meanwhile; afterwards the limit must still be reachable and enforced
 fn gen_cycle_case(rng: &mut Rng, n: u64, path: &str, cycles: u64) -> Vec<String> {
 	let max = rng.range(1, 3) as u32;
-	let asm = *rng.pick(&[Assembly::Server, Assembly::Tower, Assembly::TowerSet, Assembly::TowerMw, Assembly::TowerClone]);
+	let asm = *rng.pick(&[Assembly::Server, Assembly::Tower, Assembly::TowerSet, Assembly::TowerMw, Assembly::TowerClone, Assembly::LowLevel, Assembly::LowServe]);
 	let (http, ws) = if path == "denied" { (true, false) } else { (true, true) };
 	let mut lines = vec![header(n, max, http, ws, asm)];
 	let mut c = 1u64;
@@ -679,7 +731,7 @@ fn gen_cycle_case(rng: &mut Rng, n: u64, path: &str, cycles: u64) -> Vec<String>
 /// time out on their own), HTTP requests may be in flight throughout.
 fn gen_ping_case(rng: &mut Rng, n: u64) -> Vec<String> {
 	let max = rng.range(1, 3) as u32;
-	let asm = *rng.pick(&[Assembly::Server, Assembly::Tower, Assembly::TowerSet, Assembly::TowerMw, Assembly::TowerClone]);
+	let asm = *rng.pick(&[Assembly::Server, Assembly::Tower, Assembly::TowerSet, Assembly::TowerMw, Assembly::TowerClone, Assembly::LowLevel, Assembly::LowServe]);
 	let mut lines = vec![header(n, max, true, true, asm)];
 	let mut c = 1u64;
 	let mut held = vec![];
@@ -757,6 +809,15 @@ fn main() {
 	}
 	let rt = runtime();
 	rt.block_on(async {
+		// a bystander: a second, unrelated server of this process with limit 1 whose only slot stays
+		// taken during the whole run.  Servers share nothing: neither may the cases below see its
+		// holder, nor may their traffic free or take its slot.
+		let benv = start_env(&EnvCfg { assembly: Assembly::Server, max: 1, http: true, ws: true, ping: None, buffer: 16 }).await;
+		let mut by = Run { env: benv, max: 1, live: BTreeMap::new(), idle: vec![], stop_issued: false, closing: Default::default() };
+		by.bootstrap(true).await;
+		let mut scratch = Out::new();
+		let (o, _) = by.op(&["cg", "harrive", "1", "new"], &mut scratch).await;
+		let by_ok0 = o == "started a=0";
 		let mut failing = 0;
 		for c in &cases {
 			if !run_case(c, &mut out).await {
@@ -768,7 +829,21 @@ fn main() {
 				}
 			}
 		}
+		// the bystander's slot is still taken by its one holder, and frees normally
+		let still = by.env.avail() == Some(0) && by.live.len() == 1;
+		let (o2, orc2) = by.op(&["cg", "hdone", "1"], &mut scratch).await;
+		let _ = by.cleanup().await;
+		if a.replay.is_none() {
+			let hdr = "case 0 conn max=1 http=1 ws=1 obs=1 path=server".to_string();
+			if by_ok0 && still && o2 == "released a=1" && orc2.is_ok() {
+				out.count("bystander.ok");
+				out.line(hdr, "case".into(), Ok(()), false);
+			} else {
+				out.line(hdr, "case".into(), Err(format!("the bystander server (limit 1, one holder all along) was disturbed by the other servers' traffic: start ok={by_ok0}, slot still taken={still}, release -> {o2}")), false);
+			}
+		}
 	});
+	out.notes.push(format!("bystander server (limit 1, slot held during the whole run): {}", if out.dist.contains_key("bystander.ok") { "untouched" } else { "DISTURBED" }));
 	out.notes.push(
 		"every wait is 'until the expected observable or 5 s'; the bounded wait for stopped() at the end of each case and the ping-inactivity exit are wall-clock TESTS"
 			.into(),
